@@ -309,7 +309,8 @@ def run_shard(ctx):
     rp.extra_funcs2 = ['g']
     for k in range(count):
         prog = rp.program()
-        lay = gen.Layout(rng, noise=rng.choice([0.0, 0.3]), breaks=rng.choice([0.0, 0.2]), comments=rng.choice([0.0, 0.2]))
+        lay = gen.Layout(rng, noise=rng.choice([0.0, 0.3]), breaks=rng.choice([0.0, 0.2]), comments=rng.choice([0.0, 0.2]),
+                         pre_p=rng.choice([0.0, 0.0, 0.6]), inner_p=rng.choice([0.0, 0.3]))     # blanks before an index bracket and inside brackets
         script = gen.render_program(prog, lay)
         st = [(None, None, None, None)] + rng.sample(all_settings, ctx.pick(3, 8))
         names = {tm.name for s in prog.equations() for tm in s.terms()}
